@@ -8,18 +8,7 @@ verus! {
 //@include le.rs
 //@include dev.rs
 //@include page_w_body.rs
-//@item src/packet.rs struct DataPacketHeader
-//@enditem
-//@item src/cv_section.rs struct CompressedVectorSectionHeader
-//@enditem
-impl DataPacketHeader {
-//@item src/packet.rs const SIZE owner=DataPacketHeader
-//@enditem
-}
-impl CompressedVectorSectionHeader {
-//@item src/cv_section.rs const SIZE owner=CompressedVectorSectionHeader
-//@enditem
-}
+//@include hdr_items.rs
 //@include fmt_body.rs
 //@include e57w_body.rs
 } // verus!
